@@ -111,16 +111,17 @@ MOS += [
              only_via(CS, COMPACT_WAL, Arm(r"^discr\(try\(call Manifest::save", {"0"}, name="manifest.save()? -> Ok")),
              follows(CS, COMPACT_WAL, MAN_SAVE, exit="ok"),
              precedes(CS, MAN_LOAD, MAN_SAVE),
-             # stale arm: latest_snapshot_seq > last_wal_seq => no Manifest::save reachable
-             never(CS, MAN_SAVE, assume=[Arm(r"^Gt\(call Option::<u64>::unwrap_or, call core::num::<impl u64>::saturating_sub\)$", {"otherwise"}, name="latest_snapshot_seq > last_wal_seq")]),
+             # (the stale-snapshot test latest_snapshot_seq > last_wal_seq is decided value-level by O1.5/decisions)
              ),
        functions=[("hnsw_backend.rs", "create_snapshot")]),
     MO("O1.5/compact", "compact_old_wal_segments: fs::remove_file only on the not-active-segment arm and on the all_entries_covered arm; corrupted/unreadable segments are kept",
-       allof(only_via(H + "compact_old_wal_segments", REMOVE_FILE, Arm(r"^Eq\(.*saturating_sub\)$|^Eq\(.*, call core::num::<impl usize>::saturating_sub\)", {"0"}, name="idx != active_wal_index")),
-             only_via(H + "compact_old_wal_segments", REMOVE_FILE, Arm(r"^Gt\(call WalReader::corrupted_entries, const 0_usize\)$", {"0"}, name="corrupted_entries == 0")),
+       allof(  # (idx != active_wal_index and corrupted_entries == 0 are decided value-level by O1.5/decisions)
              only_via(H + "compact_old_wal_segments", REMOVE_FILE, Arm(r"^discr\(call WalReader::read_all\)$", {"0"}, name="read_all -> Ok")),
              ),
        functions=[("hnsw_backend.rs", "compact_old_wal_segments")]),
+    MO("O1.5/decisions", "compact_old_wal_segments: a segment file is removed only if it is not the active segment and was read without corrupted frames; create_snapshot: the MANIFEST is saved only if the "
+       "MANIFEST's latest snapshot sequence is not newer than the snapshot being written — proved for all values (DECIDES)", lambda F: _o15_decisions(F),
+       functions=[("hnsw_backend.rs", "compact_old_wal_segments"), ("hnsw_backend.rs", "create_snapshot")]),
     MO("O1.6/rotate", "rotate_wal_if_needed: new segment created, then listed in the MANIFEST (save succeeded), only then installed as the active writer",
        allof(precedes("hnsw_backend::PersistenceState::rotate_wal_if_needed", WAL_CREATE, MAN_SAVE),
              precedes("hnsw_backend::PersistenceState::rotate_wal_if_needed", MAN_LOAD, MAN_SAVE),
@@ -188,6 +189,20 @@ def seq_allocation(F):
 
 MOS.append(MO("O1.9/seq_allocation", "sequence allocation: next_wal_seq.fetch_add advances by exactly the number of WAL entries the operation logs (MIR def-use provenance of the amount argument; reachability by z3)",
               seq_allocation, functions=[("hnsw_backend.rs", f) for f in ("insert", "delete", "update_metadata", "batch_delete")]))
+
+
+def _o15_decisions(F):
+    from vlib import mirdec as MD
+    out = []
+    atoms = [("idx", r"as Iterator>::next\} as Some\)\.0: \(usize, &String\)\)\.0: usize\)$"), ("active", r"^call core::num::<impl usize>::saturating_sub$"),
+             ("corrupted", r"^call WalReader::corrupted_entries$")]
+    start = Arm(r"^discr\(call <std::iter::Enumerate<std::slice::Iter<'_, String>> as Iterator>::next\)$", {"1"}, name="next listed segment")
+    out += MD.decides(F, H + "compact_old_wal_segments", start, {"remove": REMOVE_FILE}, atoms, {"remove": ("=>", "(and (distinct idx active) (= corrupted 0))")},
+                      what="compaction removes a segment file only if it is not the active segment and its frames were all readable")
+    atoms = [("latest", r"^call Option::<u64>::unwrap_or$"), ("this_seq", r"^call core::num::<impl u64>::saturating_sub$")]
+    out += MD.decides(F, CS, MAN_LOAD, {"save": MAN_SAVE}, atoms, {"save": ("=>", "(<= latest this_seq)")}, containing=MAN_SAVE,
+                      what="create_snapshot updates the MANIFEST only if no newer snapshot is already recorded there")
+    return out
 
 
 def prepare_persistence_overlay(o):
